@@ -67,7 +67,7 @@ func c13Real(raw json.RawMessage) any {
 	deadline := time.Now().Add(40 * time.Second)
 	// a wedged run is evidence enough: stop the case there
 	wedged := func() bool {
-		if n := len(out.Runs); n > 0 && (out.Runs[n-1].Deadlock || out.Runs[n-1].Stuck != "") {
+		if n := len(out.Runs); n > 0 && (out.Runs[n-1].Deadlock || out.Runs[n-1].Stuck != "" || out.Runs[n-1].Starved != "") {
 			return true
 		}
 		return false
@@ -256,6 +256,9 @@ func c13Judge(g c13Graph, run *c13Run) []c13Viol {
 				add("result:error-without-visitor-error", "walk returned %s although no visitor failed", run.Ret)
 			}
 			for v := range exp {
+				if run.ExtFired {
+					break // the caller cancelled its own context: outside the property, nil with unvisited services is allowed
+				}
 				if started[v] != 1 {
 					add("visit:missing", "walk returned nil but v%d was visited %d times", v, started[v])
 				}
@@ -309,7 +312,12 @@ func c13OracleJudge(args, real, _ json.RawMessage) *core.Verdict {
 			c13Ctx.Count("schedule-space-exhausted:" + a.Mode)
 		}
 	}
+	starved := 0
 	for _, r := range o.Runs {
+		if r.Starved != "" {
+			starved++
+			continue
+		}
 		vs := c13Judge(a.c13Graph, r)
 		if len(vs) > 0 && (best == nil || c13KeyRank(vs[0].key) < c13KeyRank(best.key)) {
 			b := vs[0]
@@ -318,6 +326,12 @@ func c13OracleJudge(args, real, _ json.RawMessage) *core.Verdict {
 	}
 	if best != nil {
 		return core.Fail(best.key, best.what)
+	}
+	if starved > 0 {
+		if c13Ctx != nil {
+			c13Ctx.Count("unjudgeable:starved-run")
+		}
+		return core.Skip("run not judged: the machine was too loaded to reach quiescence")
 	}
 	return nil
 }
@@ -356,6 +370,14 @@ func init() {
 			for _, r := range o.Runs {
 				if r.Stuck != "" || r.Deadlock {
 					return core.Disagree("real run stuck/deadlocked (see trav.oracle): " + r.Stuck)
+				}
+			}
+			for _, r := range o.Runs {
+				if r.Starved != "" {
+					if c13Ctx != nil {
+						c13Ctx.Count("unjudgeable:starved-run")
+					}
+					return core.Skip("a run could not be brought to quiescence within 10 s although every goroutine was runnable (overloaded machine): " + r.Starved)
 				}
 			}
 			return nil
@@ -457,6 +479,11 @@ func runC13(ctx *core.Ctx) {
 						both(c13Args{c13Graph: c13Graph{N: n, Edges: es, Reverse: rev, Limit: lim}, Errs: errs, Mode: "dfs", Budget: ctx.Pick(200, 6000)})
 						ctx.Count("full-dfs")
 					}
+					// the caller cancels its own context at every possible point (outside the property: only the model tie,
+					// once / order / bound / return-after-all are judged)
+					both(c13Args{c13Graph: c13Graph{N: n, Edges: es, Reverse: rev, Limit: lim, ExtCancel: true}, Mode: "dfs", Budget: ctx.Pick(150, 6000)})
+					both(c13Args{c13Graph: c13Graph{N: n, Edges: es, Reverse: rev, Limit: lim, ExtCancel: true}, Mode: "random", Seed: ctx.Rng.Int63n(1 << 30), Budget: 10})
+					ctx.Count("external-cancel")
 				}
 			}
 		}
@@ -507,6 +534,10 @@ func runC13(ctx *core.Ctx) {
 					errs = append(errs, v)
 				}
 			}
+		}
+		if ctx.Rng.Intn(5) == 0 {
+			g.ExtCancel = true
+			ctx.Count("external-cancel")
 		}
 		mode := []string{"random", "pct", "completion"}[ctx.Rng.Intn(3)]
 		both(c13Args{c13Graph: g, Errs: errs, Mode: mode, Policy: "random", Seed: ctx.Rng.Int63n(1 << 30), Budget: 8})
